@@ -49,8 +49,7 @@ P("C02",
 P("C03",
   level_text="Bounded random exploration: generated (layout, read-cache block size, cache capacity, TTL, request history) cases drive the cached "
              "piece reader that backs every piece message; each returned buffer is compared with the flat model F and a short success is a failure.",
-  level_note="Trusted: " + MODEL_TRUST + ". Component level covers the reader behind SendPiece; the choke/allowed-fast and request-validation "
-             "clauses are decided by the system-level unit when present in the unit list.",
+  level_note="Trusted: " + MODEL_TRUST + "; for the session-level unit the scripted leecher and its reference codec. Each session case runs in a child process (crash = violation with stack).",
   technique="property-based testing (rapid) with a reference model (flat byte array)",
   rule="reads (piece, offset, length<=16 KiB) through cachedpiece.ReadAt over generated layouts, cache block sizes 1..200000 and capacities "
        "{0, one block, few blocks, huge}; non-trivial = request unaligned to 16 KiB, or crossing a cache block, or on a multi-section piece",
@@ -59,6 +58,12 @@ P("C03",
    U("c03.cachedpiece", "c03", "TestCachedPiece",
      "cachedpiece.ReadAt == F for generated offsets/lengths/cache geometries; cold, warm, evicted and expired cache entries",
      Q(4000, 8), T(400000), min_nontrivial_frac=0.3),
+   U("c03.serve", "c03", "TestServe",
+     "a real session seeding a generated layout (optionally with damaged pieces it therefore does not have) under generated read-cache block size / capacity / TTL and MaxRequestsIn, "
+     "1..3 scripted leechers sending generated requests (aligned, unaligned, duplicates, zero-length, > 16 KiB, out-of-bounds begin/length incl. 32-bit wrap, bad index, pieces not held), "
+     "cancels, interest changes, bursts: judged in stream order - every piece message answers an outstanding valid request with exactly F's bytes, never for an invalid request or a piece "
+     "not held, never while choked unless allowed-fast; upload counter == payload received when nobody was dropped; storage never written",
+     Q(240, 8, 900), T(8000, 16), min_nontrivial_frac=0.15, shrinktime="30s"),
   ])
 
 P("C06",
